@@ -340,54 +340,6 @@ Proof.
   - split; auto. split; [apply (f_holder _ _ _ _ _ _ F1)|eapply others_Frame; eauto].
 Qed.
 
-(* ---------- every step is an update of one thread and one object (processes never change) ---------- *)
-
-Lemma Upd_refl s t o : Upd s s t o.
-Proof. constructor; auto. Qed.
-
-Lemma Upd_tail s s1 s' t o0 : objs s1 = objs s -> thr s1 = thr s -> dead s1 = dead s -> Tail s1 s' t o0 -> Upd s s' t o0.
-Proof. intros A B C T. eapply Upd_trans; [apply Upd_eq; eauto|apply (ta_upd _ _ _ _ T)]. Qed.
-
-Lemma step_Upd s t : exists o0, Upd s (step s t) t o0.
-Proof.
-  unfold step. destruct (negb (enabled s t)); [exists 0; apply Upd_refl|].
-  destruct (t_pc (thr s t)) as [|a dl|a|a d|a d i|a w|a oserr|o d k|o d k|o k] eqn:Hpc.
-  - destruct (t_prog (thr s t)) as [|c rest]; [exists 0; apply Upd_refl|].
-    destruct c as [o m blk tm poll skip|o force]; unfold begin_call; cbn; exists o.
-    + rewrite upd_same. cbn. destruct (normalise _ _ _). destruct (Nat.eqb _ _); constructor; thr_simpl; intros; rewrite ?upd_other by auto; auto.
-    + rewrite upd_same. cbn.
-      destruct (Nat.eqb (o_proc (objs s o)) _); cbn;
-        (destruct (o_fd (objs s o)); [|constructor; thr_simpl; intros; rewrite ?upd_other by auto; auto]);
-        destruct (own_is _ _); cbn; destruct (_ || _); cbn.
-      all: try solve [constructor; thr_simpl; intros; rewrite ?upd_other by auto; auto].
-      all: match goal with |- context [enter_tlrel ?s1 ?tt ?oo 1] =>
-             apply (Upd_trans _ s1); [|apply (ta_upd _ _ _ _ (Tail_enter_tlrel s1 tt oo 1))] end;
-           constructor; thr_simpl; intros; rewrite ?upd_other by auto; auto.
-  - exists (a_o a). cbn. destruct (tl_try _ _) as [ob'|] eqn:E; [|constructor; thr_simpl; intros; rewrite ?upd_other by auto; auto].
-    destruct (tl_try_some _ _ _ E) as (_ & _ & _ & _ & Hp & _).
-    destruct (o_fd ob'); constructor; thr_simpl; intros; rewrite ?upd_other by auto; auto.
-  - exists (a_o a). cbn. destruct (faulty s KOpen); [destruct (intr s KOpen)|].
-    + eapply Upd_tail; [| | |apply Tail_enter_cleanup]; reflexivity.
-    + eapply Upd_tail; [| | |apply Tail_after_attempt]; reflexivity.
-    + constructor; thr_simpl; intros; rewrite ?upd_other by auto; auto.
-  - exists (a_o a). cbn. destruct (faulty s KLock); [|destruct (holder_free_for _ d)]; constructor; thr_simpl; intros; rewrite ?upd_other by auto; auto.
-  - exists (a_o a). cbn. destruct (faulty s KClose || i).
-    + eapply Upd_tail; [| | |apply Tail_enter_cleanup]; rewrite ?objs_k_close, ?thr_k_close, ?dead_k_close; reflexivity.
-    + eapply Upd_tail; [| | |apply Tail_after_attempt]; rewrite ?objs_k_close, ?thr_k_close, ?dead_k_close; reflexivity.
-  - exists (a_o a). constructor; thr_simpl; intros; rewrite ?upd_other by auto; auto.
-  - exists (a_o a). constructor; thr_simpl; intros; rewrite ?upd_other by auto; auto. apply tl_release_proc.
-  - exists o. cbn. destruct (faulty s KUnlock); constructor; thr_simpl; rewrite ?objs_k_unlock, ?thr_k_unlock, ?dead_k_unlock; cbn;
-      intros; rewrite ?upd_other by auto; auto.
-  - exists o. cbn. match goal with |- context [enter_tlrel ?s1 ?tt ?oo ?kk] =>
-      apply (Upd_trans _ s1); [|apply (ta_upd _ _ _ _ (Tail_enter_tlrel s1 tt oo kk))] end. constructor; thr_simpl; rewrite ?objs_k_close, ?thr_k_close, ?dead_k_close; cbn;
-      intros; rewrite ?upd_other by auto; auto.
-  - exists o. cbn. match goal with |- context [enter_tlrel ?s1 ?tt ?oo ?kk] =>
-      apply (Upd_trans _ s1); [|apply (ta_upd _ _ _ _ (Tail_enter_tlrel s1 tt oo kk))] end. constructor; thr_simpl; intros; rewrite ?upd_other by auto; auto. apply tl_release_proc.
-Qed.
-
-Lemma step_procs s t : (forall o, o_proc (objs (step s t) o) = o_proc (objs s o)) /\ (forall t', t_proc (thr (step s t) t') = t_proc (thr s t')).
-Proof. destruct (step_Upd s t) as [o0 U]. split; intros; [eapply Upd_oproc|eapply Upd_tproc]; eauto. Qed.
-
 (* ---------- runs of one thread are event lists ------------------------------------------------------ *)
 Import Case_C13.
 
@@ -794,4 +746,648 @@ Theorem monitor_complete_static_C13_lemma :
 Proof.
   intros reent dflt prog scen vops vres a b c ops rs wh p1 p2 Hs Hp Hk Hm.
   eapply monitor_complete_C13_lemma; eauto. apply victim_viol; auto.
+Qed.
+
+(* ---------- what one step can do to the kernel holder ------------------------------------------------- *)
+
+Definition HStep (s s' : state) (t : tid) : Prop :=
+  holder s' = holder s \/ holder s' = None \/ exists a d', t_pc (thr s t) = PFlock a d' /\ holder s' = Some d'.
+
+Lemma unl_cases h d : unl_holder h d = h \/ unl_holder h d = None.
+Proof. unfold unl_holder. destruct h as [x|]; auto. destruct (Nat.eqb x d); auto. Qed.
+
+Arguments unl_holder : simpl never.
+Ltac unl := match goal with |- context[unl_holder ?h ?x] => let E := fresh "E" in destruct (unl_cases h x) as [E|E]; rewrite E; auto end.
+Ltac hs := cbn; rewrite ?upd_same; cbn;
+  repeat progress (rewrite ?(ta_holder _ _ _ _ (Tail_enter_tlrel _ _ _ _)), ?(ta_holder _ _ _ _ (Tail_enter_cleanup _ _ _ _)),
+          ?(ta_holder _ _ _ _ (Tail_after_attempt _ _ _)), ?holder_k_close, ?holder_k_unlock; cbn).
+
+Lemma step_holder s t : HStep s (step s t) t.
+Proof.
+  unfold HStep, step. destruct (negb (enabled s t)); [left; reflexivity|].
+  destruct (t_pc (thr s t)) as [|a dl|a|a d|a d i|a w|a oserr|o d k|o d k|o k] eqn:Hpc.
+  - destruct (t_prog (thr s t)) as [|c rest]; [left; reflexivity|].
+    destruct c as [o m blk tm poll skip|o force]; unfold begin_call; hs.
+    + destruct (normalise _ _ _). destruct (Nat.eqb _ _); left; reflexivity.
+    + destruct (Nat.eqb (o_proc (objs s o)) _); cbn; (destruct (o_fd (objs s o)); [|left; reflexivity]);
+        destruct (own_is _ _); cbn; destruct (_ || _); hs; left; reflexivity.
+  - hs. destruct (tl_try _ _) as [ob'|]; [destruct (o_fd ob')|]; left; reflexivity.
+  - hs. destruct (faulty s KOpen); [destruct (intr s KOpen)|]; hs; left; reflexivity.
+  - hs. destruct (faulty s KLock); [left; reflexivity|]. destruct (holder_free_for _ d); hs; [|left; reflexivity].
+    right. right. exists a, d. split; reflexivity.
+  - hs. destruct (faulty s KClose || i); hs; destruct (unl_cases (holder s) d) as [E|E]; rewrite E; auto.
+  - left. reflexivity.
+  - left. reflexivity.
+  - hs. destruct (faulty s KUnlock); hs; first [unl|left; reflexivity].
+  - hs. first [unl|left; reflexivity].
+  - hs. left. reflexivity.
+Qed.
+
+(* ---------- the victim's end: killed, or finished and gone ------------------------------------------- *)
+
+Definition vend (died : bool) (s : state) : state := if died then crash s 1 else s.
+(* a victim that was not killed had finished: idle, its object released *)
+Definition vquiet (died : bool) (s : state) : Prop :=
+  died = false -> t_pc (thr s 0) = PIdle /\ o_fd (objs s 0) = None.
+
+Lemma vend_thr died s : thr (vend died s) = thr s.
+Proof. destruct died; reflexivity. Qed.
+Lemma vend_objs died s : objs (vend died s) = objs s.
+Proof. destruct died; reflexivity. Qed.
+Lemma vend_faults died s : faults (vend died s) = faults s.
+Proof. destruct died; reflexivity. Qed.
+Lemma vend_FD died s : FD s -> FD (vend died s).
+Proof. destruct died; [apply FD_crash|auto]. Qed.
+Lemma vend_dead died s p : dead s = (fun _ => false) -> dead (vend died s) p = died && Nat.eqb p 1.
+Proof. intros H. destruct died; cbn; rewrite H; [unfold upd; destruct (Nat.eqb p 1)|]; reflexivity. Qed.
+Lemma vend_holder died s h : holder (vend died s) = Some h -> holder s = Some h.
+Proof. destruct died; cbn; auto. destruct (holder s) as [x|]; [destruct (owned_by s 1 x)|]; congruence. Qed.
+
+(* whoever still references the kernel holder afterwards is not the victim *)
+Lemma holder_refs died s h :
+  FD s -> dead s = (fun _ => false) -> o_proc (objs s 0) = 1 -> t_proc (thr s 0) = 1 -> vquiet died s ->
+  holder (vend died s) = Some h ->
+  (exists o, o <> 0 /\ o_fd (objs s o) = Some h) \/ (exists t, t <> 0 /\ pc_fd (t_pc (thr s t)) = Some h).
+Proof.
+  intros F Hd Ho Ht Hq Hh. pose proof (vend_FD died s F) as F2.
+  destruct (fd_holder_ref _ F2 h Hh) as [(o & A & B)|(t & A & B)].
+  - left. exists o. rewrite vend_objs in *. split; auto. intros ->. rewrite vend_dead, Ho in B by auto.
+    destruct died; [discriminate|]. destruct (Hq eq_refl) as [_ Z]. congruence.
+  - right. exists t. rewrite vend_thr in *. split; auto. intros ->. rewrite vend_dead, Ht in B by auto.
+    destruct died; [discriminate|]. destruct (Hq eq_refl) as [Z _]. rewrite Z in A. discriminate.
+Qed.
+
+(* ---------- Case_C13's [go] as a top-level function ---------------------------------------------------- *)
+
+Fixpoint go_f (k : nat) (s : state) : state * list nat * nat :=
+  match t_res (thr s 0) with
+  | RTrue :: _ => (s, [], k)
+  | _ =>
+      match k with
+      | 0 => (s, [], 0)
+      | S k' => let '(s', l) := run_k 1 s 0 in
+                match l with
+                | [] => (s', [], 0)
+                | _ => let '(s2, l2, rest) := go_f k' s' in (s2, l ++ l2, rest)
+                end
+      end
+  end.
+
+Lemma go_ind (P : state -> Prop) :
+  (forall s, P s -> P (step s 0)) -> (forall s n, P s -> P (set_now s n)) ->
+  forall k s, P s -> P (fst (fst (go_f k s))).
+Proof.
+  intros Hs Hn. induction k as [|k IH]; intros s Ps.
+  - cbn [go_f]. destruct (t_res (thr s 0)) as [|[] ?]; exact Ps.
+  - cbn [go_f].
+    assert (G : P (fst (fst (let '(s', l) := run_k 1 s 0 in
+                match l with [] => (s', [], 0) | _ => let '(s2, l2, rest) := go_f k s' in (s2, l ++ l2, rest) end)))).
+    { pose proof (run_k_ind P 0 Hs Hn 1 s Ps) as P1. destruct (run_k 1 s 0) as [s' l]. cbn [fst] in P1.
+      destruct l; [exact P1|]. specialize (IH s' P1). destruct (go_f k s') as [[s2 l2] rest]. exact IH. }
+    destruct (t_res (thr s 0)) as [|[] ?]; try exact G; exact Ps.
+Qed.
+
+Lemma go_run k : forall s, exists evs, fst (fst (go_f k s)) = run s evs.
+Proof.
+  induction k as [|k IH]; intros s.
+  - cbn [go_f]. exists []. destruct (t_res (thr s 0)) as [|[] ?]; reflexivity.
+  - cbn [go_f].
+    assert (G : exists evs, fst (fst (let '(s', l) := run_k 1 s 0 in
+                match l with [] => (s', [], 0) | _ => let '(s2, l2, rest) := go_f k s' in (s2, l ++ l2, rest) end)) = run s evs).
+    { destruct (run_k_run 0 1 s) as (e1 & E1). destruct (run_k 1 s 0) as [s' l]. cbn [fst] in E1.
+      destruct l; [exists e1; exact E1|]. destruct (IH s') as (e2 & E2). destruct (go_f k s') as [[s2 l2] rest].
+      cbn [fst] in *. exists (e1 ++ e2). rewrite run_app, <- E1. exact E2. }
+    destruct (t_res (thr s 0)) as [|[] ?]; try exact G; exists []; reflexivity.
+Qed.
+
+Lemma VF_trans sb s1 s2 : VF sb s1 -> VF s1 s2 -> VF sb s2.
+Proof.
+  intros [A B C D E F G] [A' B' C' D' E' F' G']. constructor; intros; try congruence.
+  - rewrite A', A; auto.
+  - rewrite B', B; auto.
+  - auto.
+Qed.
+
+Lemma VF_go sb k s : VF sb s -> VF sb (fst (fst (go_f k s))).
+Proof.
+  apply (go_ind (VF sb)); [apply VF_step|]. intros s1 n [A B C D E F G]. constructor; auto.
+Qed.
+
+Lemma viol_back s evs : viol (run s evs) = false -> viol s = false.
+Proof. intros H. destruct (viol s) eqn:E; auto. rewrite (viol_run_mono evs s E) in H. discriminate. Qed.
+
+(* a state of the victim phase is again a base state *)
+Lemma Base_VF sb s : Base sb -> VF sb s -> Inv s -> Base s.
+Proof.
+  intros B V I. constructor.
+  - exists s, []. split; auto.
+  - intros t Ht. rewrite (v_thr _ _ V) by auto. apply (b_idle _ B); auto.
+  - rewrite (v_tproc _ _ V). apply (b_tp0 _ B).
+  - rewrite (v_thr _ _ V) by discriminate. apply (b_tp1 _ B).
+  - rewrite (v_thr _ _ V) by discriminate. apply (b_tp2 _ B).
+  - rewrite (v_oproc _ _ V). apply (b_op0 _ B).
+  - rewrite (v_obj _ _ V) by discriminate. apply (b_op1 _ B).
+  - rewrite (v_obj _ _ V) by discriminate. apply (b_op2 _ B).
+  - rewrite (v_dead _ _ V). apply (b_dead _ B).
+  - rewrite (v_faults _ _ V). apply (b_faults _ B).
+  - apply (v_uses _ _ V).
+  - rewrite (v_obj _ _ V) by discriminate. apply (b_p2 _ B).
+  - intros o Ho Ho1. rewrite (v_obj _ _ V) by auto. apply (b_fd _ B); auto.
+Qed.
+
+(* ---------- the waiter starts while the victim is still running --------------------------------------- *)
+
+Lemma Base_Kern s : Base s -> Inv s -> Kern s.
+Proof. intros B [_ F]. apply Kern_reach; auto. apply (b_faults _ B). Qed.
+
+Lemma Base_live1 s : Base s -> idle_live s 1 1.
+Proof.
+  intros B. unfold idle_live. rewrite (b_idle _ B), (b_tp1 _ B), (b_op1 _ B), (b_dead _ B) by discriminate. auto.
+Qed.
+
+(* the path is free: the waiter gets the lock at once and is a holding survivor from then on *)
+Lemma survivor_acq fuel sa :
+  16 <= fuel -> Base sa -> Inv sa -> pristine (objs sa 1) -> o_dflt (objs sa 1) = TNeg -> holder sa = None ->
+  exists s' d, do_call fuel sa 1 (acq_blk 1) = (s', RTrue) /\ Base s' /\ held_by (objs s' 1) 1 d /\
+               t_prog (thr s' 1) = [] /\ last_result s' 1 = RTrue.
+Proof.
+  intros Hfu B I P1 D1 Hh. pose proof (Base_Kern _ B I) as K. pose proof (Base_live1 _ B) as IL.
+  assert (Hunt : forall T, snd (norm' (o_dflt (objs sa 1)) true TNone) <> TVal T) by (rewrite D1; intros T; cbn; discriminate).
+  destruct (acq_ok sa 1 1 MPlain true TNone 51%N 0 fuel IL K P1 Hh Hunt Hfu) as (s' & d & E & F & Hb & Pr & Pc & Tp & K').
+  pose proof K as (K1 & K2 & K3). destruct IL as (Hpc & Hal & Hpr).
+  pose proof (do_acquire_outcome sa 1 1 MPlain true TNone 51%N 0 fuel Hpc Hal Hpr K1 K2) as Out.
+  cbv zeta in Out. rewrite E in Out. cbn [fst snd] in Out.
+  assert (Hthr : t_prog (thr s' 1) = [] /\ last_result s' 1 = RTrue).
+  { destruct Out as [Eo|[[Eo _]|Fin]]; try discriminate.
+    destruct Fin as [_ Ht _ _ _ _ _|d' _ Ht _ _ _ _ _ _|E1 _ _ _ _ _ _|b E1 _ _ _ _ _ _ _ _].
+    - unfold last_result. rewrite Ht. cbn. auto.
+    - unfold last_result. rewrite Ht. cbn. auto.
+    - discriminate.
+    - destruct b; discriminate. }
+  exists s', d. split; [exact E|].
+  assert (Et : forall t, t <> 1 -> thr s' t = thr sa t) by apply (f_thr _ _ _ _ _ _ F).
+  assert (Eo : forall o, o <> 1 -> objs s' o = objs sa o) by apply (f_obj _ _ _ _ _ _ F).
+  split; [|split; [exact Hb|exact Hthr]].
+  constructor.
+  - destruct (run_alone_run 1 fuel (pop_prog sa 1 [acq_blk 1])) as (evs & Er).
+    exists (pop_prog sa 1 [acq_blk 1]), evs. split; [apply Inv_pop; auto|]. rewrite <- Er.
+    unfold do_call in E. unfold acq_blk. rewrite E. reflexivity.
+  - intros t Ht. destruct (Nat.eq_dec t 1) as [->|H1]; auto. rewrite Et by auto. apply (b_idle _ B); auto.
+  - rewrite Et by discriminate. apply (b_tp0 _ B).
+  - rewrite Tp. apply (b_tp1 _ B).
+  - rewrite Et by discriminate. apply (b_tp2 _ B).
+  - rewrite Eo by discriminate. apply (b_op0 _ B).
+  - rewrite Pr. apply (b_op1 _ B).
+  - rewrite Eo by discriminate. apply (b_op2 _ B).
+  - rewrite (f_dead _ _ _ _ _ _ F). apply (b_dead _ B).
+  - rewrite (f_faults _ _ _ _ _ _ F). apply (b_faults _ B).
+  - rewrite Et by discriminate. apply (b_uses _ B).
+  - rewrite Eo by discriminate. apply (b_p2 _ B).
+  - intros o Ho Ho1. rewrite Eo by auto. apply (b_fd _ B); auto.
+Qed.
+
+(* somebody holds the path: the waiter parks in its blocking flock *)
+Record WBase (sb : state) (a : aloc) (d : fdid) : Prop := mkWBase {
+  w_inv : exists sp evs, Inv sp /\ sb = run sp evs;
+  w_idle : forall t, t <> 0 -> t <> 1 -> t_pc (thr sb t) = PIdle;
+  w_pc1 : t_pc (thr sb 1) = PFlock a d;
+  w_prog1 : t_prog (thr sb 1) = [];
+  w_a : a_o a = 1 /\ a_blk a = true /\ a_tm a = TNeg;
+  w_o1 : o_fd (objs sb 1) = None /\ o_own (objs sb 1) = Some 1 /\ o_cnt (objs sb 1) = 1 /\ o_dep (objs sb 1) = 1;
+  w_tp0 : t_proc (thr sb 0) = 1; w_tp1 : t_proc (thr sb 1) = 2; w_tp2 : t_proc (thr sb 2) = 0;
+  w_op0 : o_proc (objs sb 0) = 1; w_op1 : o_proc (objs sb 1) = 2; w_op2 : o_proc (objs sb 2) = 0;
+  w_dead : dead sb = (fun _ => false);
+  w_faults : faults sb = [];
+  w_uses : forall o, o <> 0 -> ~ uses (thr sb 0) o;
+  w_p2 : pristine (objs sb 2);
+  w_fd : forall o, o <> 0 -> o <> 1 -> o_fd (objs sb o) = None;
+  w_nh : holder sb <> Some d
+}.
+
+Lemma waiter_blocks fuel sa h :
+  16 <= fuel -> Base sa -> Inv sa -> pristine (objs sa 1) -> o_dflt (objs sa 1) = TNeg -> holder sa = Some h ->
+  exists s' a d, do_call fuel sa 1 (acq_blk 1) = (s', RWouldBlock) /\ WBase s' a d.
+Proof.
+  intros Hfu B I P1 D1 Hh. pose proof (Base_Kern _ B I) as K. pose proof (Base_live1 _ B) as (Hpc & Hal & Hpr).
+  pose proof K as (K1 & K2 & K3). pose proof P1 as (Q1 & Q2 & Q3 & Q4).
+  pose proof (do_acquire_outcome sa 1 1 MPlain true TNone 51%N 0 fuel Hpc Hal Hpr K1 K2) as Out.
+  pose proof (do_acquire_terminates sa 1 1 MPlain true TNone 51%N 0 fuel Hpc Hal Hpr K1 K2 K3) as Term.
+  cbv zeta in Out, Term. rewrite normalise_norm' in Out, Term. rewrite D1 in Out, Term.
+  change (norm' TNeg true TNone) with (true, TNeg) in Out, Term. cbn [fst snd] in Out, Term.
+  assert (Hterm : snd (do_call fuel sa 1 (CAcq 1 MPlain true TNone 51%N 0)) <> ROutOfFuel).
+  { apply Term; [intros T Z; discriminate|cbn; lia]. }
+  destruct (do_call fuel sa 1 (CAcq 1 MPlain true TNone 51%N 0)) as [s' r] eqn:E. cbn [fst snd] in *.
+  assert (Htry : tl_try (objs sa 1) 1 <> None) by (unfold tl_try; rewrite Q2; discriminate).
+  destruct Out as [Eo|[[Eo Bl]|Fin]]; [congruence| |].
+  - destruct Bl as [a Ht Hb Htm Hbusy _|a d Ht Hb Htm Hfd Htr Hhold Hofd Ha F Ho]; [congruence|].
+    exists s', a, d. subst r. split; [unfold acq_blk; exact E|].
+    assert (Et : forall t, t <> 1 -> thr s' t = thr sa t) by apply (f_thr _ _ _ _ _ _ F).
+    assert (Eo1 : forall o, o <> 1 -> objs s' o = objs sa o) by apply (f_obj _ _ _ _ _ _ F).
+    destruct Ha as (A1 & A2 & A3 & A4 & A5 & A6).
+    constructor.
+    + destruct (run_alone_run 1 fuel (pop_prog sa 1 [acq_blk 1])) as (evs & Er).
+      exists (pop_prog sa 1 [acq_blk 1]), evs. split; [apply Inv_pop; auto|]. rewrite <- Er.
+      unfold do_call in E. unfold acq_blk. rewrite E. reflexivity.
+    + intros t H0 H1. rewrite Et by auto. apply (b_idle _ B); auto.
+    + rewrite Ht. reflexivity.
+    + rewrite Ht. reflexivity.
+    + auto.
+    + rewrite Ho. unfold acq_obj. cbn. rewrite Q1, Q2, Q3. auto.
+    + rewrite Et by discriminate. apply (b_tp0 _ B).
+    + rewrite Ht. cbn. apply (b_tp1 _ B).
+    + rewrite Et by discriminate. apply (b_tp2 _ B).
+    + rewrite Eo1 by discriminate. apply (b_op0 _ B).
+    + rewrite Ho. cbn. apply (b_op1 _ B).
+    + rewrite Eo1 by discriminate. apply (b_op2 _ B).
+    + rewrite (f_dead _ _ _ _ _ _ F). apply (b_dead _ B).
+    + rewrite (f_faults _ _ _ _ _ _ F). apply (b_faults _ B).
+    + rewrite Et by discriminate. apply (b_uses _ B).
+    + rewrite Eo1 by discriminate. apply (b_p2 _ B).
+    + intros o H0 H1. rewrite Eo1 by auto. apply (b_fd _ B); auto.
+    + rewrite (f_holder _ _ _ _ _ _ F), Hh. intros [= ->]. destruct (f_pend _ _ _ _ _ _ F d eq_refl) as [[L _] _].
+      pose proof (K1 _ Hh). lia.
+  - exfalso. destruct Fin as [E1 Ht F Ho Hfd _ _|d E1 Ht F Ho Hfd _ Hhd _|E1 Ht F Ho Hbusy _ _|b E1 Ht F Ho Hfd _ R1 R2 _].
+    + congruence.
+    + destruct Hhd as [A|A]; [congruence|]. rewrite Hh in A. injection A as ->.
+      destruct (f_pend _ _ _ _ _ _ F d eq_refl) as [[L _] _]. pose proof (K1 _ Hh). lia.
+    + congruence.
+    + destruct b; [apply R1; auto|]. destruct (R2 eq_refl) as [[A|[T A]] _]; discriminate.
+Qed.
+
+(* the state after the victim is gone (killed, or finished), survivors idle *)
+Lemma after_victim died sb k :
+  Base sb -> viol (fst (run_k k sb 0)) = false -> vquiet died (fst (run_k k sb 0)) ->
+  let s2 := vend died (fst (run_k k sb 0)) in
+  (forall t, t <> 0 -> thr s2 t = thr sb t) /\ (forall o, o <> 0 -> objs s2 o = objs sb o) /\
+  Kern s2 /\ Slot s2 2 2 /\ dead s2 2 = false /\ dead s2 0 = false /\
+  (o_fd (objs sb 1) = None -> holder s2 = None) /\
+  (forall d, o_fd (objs sb 1) = Some d -> holder s2 = Some d).
+Proof.
+  intros B Hv Hq. pose proof (VF_run_k sb k sb (VF_refl sb (b_uses _ B))) as V.
+  destruct (b_inv _ B) as (sp & evs0 & Isp & Esb).
+  destruct (run_k_run 0 k sb) as (evs & Esa).
+  set (sa := fst (run_k k sb 0)) in *. cbv zeta.
+  assert (Isa : Inv sa).
+  { rewrite Esa, Esb, <- run_app. apply Inv_run; auto. rewrite run_app, <- Esb, <- Esa. exact Hv. }
+  assert (Hd : dead sa = (fun _ => false)) by (rewrite (v_dead _ _ V); apply (b_dead _ B)).
+  assert (F2 : FD (vend died sa)) by (apply vend_FD; apply Isa).
+  assert (Et : forall t, t <> 0 -> thr (vend died sa) t = thr sb t) by (intros; rewrite vend_thr; apply (v_thr _ _ V); auto).
+  assert (Eo : forall o, o <> 0 -> objs (vend died sa) o = objs sb o) by (intros; rewrite vend_objs; apply (v_obj _ _ V); auto).
+  assert (K2 : Kern (vend died sa)).
+  { apply Kern_reach; auto. rewrite vend_faults, (v_faults _ _ V). apply (b_faults _ B). }
+  split; auto. split; auto. split; auto.
+  split.
+  { split.
+    - unfold idle_live. rewrite Et, Eo, vend_dead by (auto; discriminate).
+      rewrite (b_idle _ B), (b_tp2 _ B), (b_op2 _ B) by discriminate. rewrite andb_false_r. auto.
+    - rewrite Eo by discriminate. apply (b_p2 _ B). }
+  split; [rewrite vend_dead by auto; apply andb_false_r|]. split; [rewrite vend_dead by auto; apply andb_false_r|].
+  split.
+  - intros Hn. destruct (holder (vend died sa)) as [h|] eqn:Eh; auto. exfalso.
+    destruct (holder_refs died sa h) as [(o & A & C)|(t & A & C)]; auto.
+    + apply Isa.
+    + rewrite (v_oproc _ _ V). apply (b_op0 _ B).
+    + rewrite (v_tproc _ _ V). apply (b_tp0 _ B).
+    + rewrite (v_obj _ _ V) in C by auto. destruct (Nat.eq_dec o 1) as [->|Ho1]; [congruence|].
+      rewrite (b_fd _ B) in C by auto. discriminate.
+    + rewrite (v_thr _ _ V), (b_idle _ B) in C by auto. discriminate.
+  - intros d Hd1. destruct (fd_hold _ F2 1 d) as [A _]; auto.
+    + rewrite Eo by discriminate. auto.
+    + rewrite Eo, vend_dead, (b_op1 _ B) by (auto; discriminate). apply andb_false_r.
+Qed.
+
+(* the victim phase while the waiter is parked: the waiter's descriptor never becomes the holder *)
+Lemma parked_phase sb a d k :
+  WBase sb a d -> viol (fst (run_k k sb 0)) = false ->
+  let sc := fst (run_k k sb 0) in VF sb sc /\ Inv sc /\ holder sc <> Some d.
+Proof.
+  intros W Hv. cbv zeta.
+  destruct (w_inv _ _ _ W) as (sp & evs0 & Isp & Esb).
+  assert (Ib : viol sb = true \/ (Inv sb /\ holder sb <> Some d)).
+  { destruct (viol sb) eqn:Evb; [left; reflexivity|right]. split; [|apply (w_nh _ _ _ W)].
+    rewrite Esb. apply Inv_run; auto. rewrite <- Esb. exact Evb. }
+  pose proof (run_k_ind (fun s => VF sb s /\ (viol s = true \/ (Inv s /\ holder s <> Some d))) 0) as Ind.
+  destruct (Ind) with (k := k) (s := sb) as [V [Hbad|[I NH]]].
+  - intros s [V [Hbad|[I NH]]]; (split; [apply VF_step; exact V|]).
+    + left. apply viol_step_mono. exact Hbad.
+    + destruct (viol (step s 0)) eqn:Ev; [left; reflexivity|right]. split.
+      * apply (Inv_apply s (EStep 0)); auto.
+      * destruct (step_holder s 0) as [E|[E|(a' & d' & Epc & E)]]; [rewrite E; exact NH|rewrite E; discriminate|].
+        rewrite E. intros [= ->]. destruct I as [_ F].
+        assert (0 = 1); [|discriminate].
+        apply (fd_pc_inj _ F 0 1 d); [rewrite Epc; reflexivity|].
+        rewrite (v_thr _ _ V) by discriminate. rewrite (w_pc1 _ _ _ W). reflexivity.
+  - intros s n [V [Hbad|[I NH]]]; (split; [destruct V; constructor; auto|]); [left; exact Hbad|right].
+    split; [|exact NH]. destruct I as [T F]. split; [apply TL_adv|apply FD_adv]; auto.
+  - split; [apply VF_refl; apply (w_uses _ _ _ W)|exact Ib].
+  - congruence.
+  - auto.
+Qed.
+
+Lemma faulty_nil s k : faults s = [] -> faulty s k = false.
+Proof. intros H. unfold faulty. rewrite H. reflexivity. Qed.
+
+(* once the victim is gone the parked waiter's flock goes through: one step, True *)
+Lemma waiter_resumes fuel died sb a d k :
+  1 <= fuel -> WBase sb a d -> viol (fst (run_k k sb 0)) = false -> vquiet died (fst (run_k k sb 0)) ->
+  exists s3, run_alone fuel (vend died (fst (run_k k sb 0))) 1 = (s3, RTrue) /\
+    Slot s3 2 2 /\ Kern s3 /\ holder s3 = Some d /\ held_by (objs s3 1) 1 d /\
+    t_pc (thr s3 1) = PIdle /\ dead s3 (t_proc (thr s3 1)) = false.
+Proof.
+  intros Hfu W Hv Hq. destruct (parked_phase sb a d k W Hv) as (V & I & NH).
+  set (sc := fst (run_k k sb 0)) in *. set (s2 := vend died sc).
+  assert (Hd : dead sc = (fun _ => false)) by (rewrite (v_dead _ _ V); apply (w_dead _ _ _ W)).
+  assert (Et : forall t, t <> 0 -> thr s2 t = thr sb t) by (intros; unfold s2; rewrite vend_thr; apply (v_thr _ _ V); auto).
+  assert (Eo : forall o, o <> 0 -> objs s2 o = objs sb o) by (intros; unfold s2; rewrite vend_objs; apply (v_obj _ _ V); auto).
+  assert (F2 : FD s2) by (apply vend_FD; apply I).
+  assert (Ef : faults s2 = []) by (unfold s2; rewrite vend_faults, (v_faults _ _ V); apply (w_faults _ _ _ W)).
+  assert (K2 : Kern s2) by (apply Kern_reach; auto).
+  destruct (w_a _ _ _ W) as (A1 & A2 & A3). destruct (w_o1 _ _ _ W) as (O1 & O2 & O3 & O4).
+  assert (Hpc : t_pc (thr s2 1) = PFlock a d) by (rewrite Et by discriminate; apply (w_pc1 _ _ _ W)).
+  assert (Hh : holder s2 = None).
+  { destruct (holder s2) as [h|] eqn:Eh; auto. exfalso.
+    destruct (holder_refs died sc h) as [(o & X & C)|(t & X & C)]; auto.
+    - apply I.
+    - rewrite (v_oproc _ _ V). apply (w_op0 _ _ _ W).
+    - rewrite (v_tproc _ _ V). apply (w_tp0 _ _ _ W).
+    - rewrite (v_obj _ _ V) in C by auto. destruct (Nat.eq_dec o 1) as [->|Ho1]; [congruence|].
+      rewrite (w_fd _ _ _ W) in C by auto. discriminate.
+    - rewrite (v_thr _ _ V) in C by auto. destruct (Nat.eq_dec t 1) as [->|Ht1].
+      + rewrite (w_pc1 _ _ _ W) in C. cbn in C. injection C as <-. apply NH. apply (vend_holder died). exact Eh.
+      + rewrite (w_idle _ _ _ W) in C by auto. discriminate. }
+  assert (Hal : dead s2 (t_proc (thr s2 1)) = false).
+  { rewrite Et, (w_tp1 _ _ _ W) by discriminate. unfold s2. rewrite vend_dead by auto. apply andb_false_r. }
+  assert (Hnd : call_done s2 1 = false) by (unfold call_done; rewrite Hpc; reflexivity).
+  assert (En : enabled s2 1 = true).
+  { unfold enabled, is_dead. rewrite Hal, Hpc, A2, A3. unfold holder_free_for. rewrite Hh. reflexivity. }
+  destruct fuel as [|f]; [lia|]. rewrite run_alone_step by auto. rewrite (step_flock _ _ a d En Hpc).
+  unfold sys. rewrite (faulty_nil _ _ Ef). cbv iota beta zeta. unfold holder_free_for at 1. cbn [holder]. rewrite Hh.
+  match goal with |- context[run_alone f ?x 1] => set (s3 := x) end.
+  assert (T3 : thr s3 1 = mkthr (t_proc (thr s2 1)) (t_prog (thr s2 1)) PIdle (RTrue :: t_res (thr s2 1)) (a_o a :: t_cs (thr s2 1))).
+  { unfold s3, finish_acq. cbn. rewrite upd_same. reflexivity. }
+  assert (T3o : forall t, t <> 1 -> thr s3 t = thr s2 t).
+  { intros t Ht. unfold s3, finish_acq. cbn. rewrite upd_other by auto. reflexivity. }
+  assert (O3o : forall o, o <> 1 -> objs s3 o = objs s2 o).
+  { intros o Ho. unfold s3, finish_acq. cbn. rewrite A1, upd_other by auto. reflexivity. }
+  assert (O31 : objs s3 1 = set_fd (objs s2 1) (Some d)).
+  { unfold s3, finish_acq. cbn. rewrite A1, upd_same. reflexivity. }
+  assert (Hd3 : dead s3 = dead s2) by reflexivity.
+  assert (Hh3 : holder s3 = Some d) by reflexivity.
+  assert (Hdone : call_done s3 1 = true).
+  { unfold call_done. rewrite T3. cbn. rewrite Et by discriminate. rewrite (w_prog1 _ _ _ W). reflexivity. }
+  rewrite run_alone_done by auto. exists s3. split; [unfold last_result; rewrite T3; reflexivity|].
+  split.
+  { split.
+    - unfold idle_live. rewrite T3o, O3o, Hd3, Et, Eo by discriminate.
+      rewrite (w_idle _ _ _ W), (w_tp2 _ _ _ W), (w_op2 _ _ _ W) by discriminate.
+      unfold s2. rewrite vend_dead by auto. rewrite andb_false_r. auto.
+    - rewrite O3o, Eo by discriminate. apply (w_p2 _ _ _ W). }
+  split.
+  { destruct K2 as (K21 & K22 & K23). repeat split.
+    - intros h Eh. rewrite Hh3 in Eh. injection Eh as <-. apply (fd_pc_lt _ F2 1 d). rewrite Hpc. reflexivity.
+    - exact K22.
+    - exact K23. }
+  split; [exact Hh3|]. split.
+  { rewrite O31, Eo by discriminate. unfold held_by. cbn. auto. }
+  split; [rewrite T3; reflexivity|]. rewrite T3. cbn. exact Hal.
+Qed.
+
+Lemma model_trace_w_unf reent dflt prog vops vres died a b c :
+  model_trace (CCrash reent dflt prog 2 true vops vres died a b c) =
+  (let s0 := init_crash reent dflt prog in
+   let '(sa, la, rest) := go_f (length vops) s0 in
+   let sb := fst (do_call FUEL sa 1 (acq_blk 1)) in
+   let '(sc, lc) := run_k rest sb 0 in
+   let s2 := if died then crash sc 1 else sc in
+   let '(sw, r) := run_alone FUEL s2 1 in
+   let '(s4, p1) := probe sw in
+   let s5 := fst (do_call FUEL s4 1 (CRel 1 false)) in
+   let '(_, p2) := probe s5 in
+   (la ++ lc, rev (t_res (thr sc 0)), result_eqb r RTrue, p1, p2)).
+Proof.
+  unfold model_trace. cbv beta iota zeta delta [Nat.eqb]. fold go_f.
+  destruct (go_f (length vops) (init_crash reent dflt prog)) as [[sa la] rest].
+  destruct (run_k rest (fst (do_call FUEL sa 1 (acq_blk 1))) 0) as [sc lc].
+  destruct (run_alone FUEL (if died then crash sc 1 else sc) 1) as [sw r].
+  destruct (probe sw) as [s4 p1]. destruct (probe (fst (do_call FUEL s4 1 (CRel 1 false)))) as [s6 p2].
+  reflexivity.
+Qed.
+
+(* ---------- the model's prediction, all cases (fuel as a parameter) ----------------------------------- *)
+
+Definition victim_end_w (fuel : nat) (reent : bool) (dflt : tmo) (prog : list call) (k : nat) : state :=
+  let '(sa, la, rest) := go_f k (init_crash reent dflt prog) in
+  fst (run_k rest (fst (do_call fuel sa 1 (acq_blk 1))) 0).
+
+(* scenario 2, waiter started at the victim's first success *)
+Definition mt_gen_w (fuel : nat) (reent : bool) (dflt : tmo) (prog : list call) (k : nat) (died : bool) : bool * bool * bool :=
+  let s2 := vend died (victim_end_w fuel reent dflt prog k) in
+  let '(sw, r) := run_alone fuel s2 1 in
+  let '(s4, p1) := probe_gen fuel sw 2 2 in
+  let s5 := fst (do_call fuel s4 1 (CRel 1 false)) in
+  let '(_, p2) := probe_gen fuel s5 2 2 in
+  (result_eqb r RTrue, p1, p2).
+
+(* waiter (if any) started after the victim is gone *)
+Definition mt_gen_d (fuel : nat) (reent : bool) (dflt : tmo) (prog : list call) (scen k : nat) (died : bool) : bool * bool * bool :=
+  let s2 := vend died (victim_end fuel reent dflt prog scen k) in
+  let '(s3, wh) :=
+      if Nat.eqb scen 2 then let '(sw, r) := do_call fuel s2 1 (acq_blk 1) in (sw, result_eqb r RTrue)
+      else (s2, false) in
+  let '(s4, p1) := probe_gen fuel s3 2 2 in
+  let s5 := if Nat.eqb scen 0 then s4 else fst (do_call fuel s4 1 (CRel 1 false)) in
+  let '(_, p2) := probe_gen fuel s5 2 2 in
+  (wh, p1, p2).
+
+Lemma mt_gen_d_ok fuel reent dflt prog scen k died :
+  16 <= fuel -> scen <= 2 -> (forall c, In c prog -> call_obj c = 0) ->
+  viol (victim_end fuel reent dflt prog scen k) = false -> vquiet died (victim_end fuel reent dflt prog scen k) ->
+  let '(wh, p1, p2) := mt_gen_d fuel reent dflt prog scen k died in ok_obs scen wh p1 p2 = true.
+Proof.
+  intros Hfu Hs Hp Hv Hq. unfold mt_gen_d. unfold victim_end in *.
+  destruct scen as [|[|[|n]]]; [| | |lia]; cbn [Nat.eqb] in *; cbv iota in *.
+  - destruct (after_victim died _ k (Base_init reent dflt prog Hp) Hv Hq) as (Et & Eo & K2 & Sl & D2 & D0 & Hn & _).
+    set (s2 := vend died _) in *.
+    assert (Hh2 : holder s2 = None) by (apply Hn; apply init_objs; discriminate).
+    destruct (probe_free fuel s2 2 2 Sl K2 Hh2 Hfu) as (s4 & E4 & Sl4 & K4 & Hh4 & _).
+    rewrite E4. destruct (probe_free fuel s4 2 2 Sl4 K4 Hh4 Hfu) as (s6 & E6 & _). rewrite E6. reflexivity.
+  - destruct (survivor_holds fuel reent dflt prog Hfu Hp) as (sb & d & E & B & Hb).
+    rewrite E in *. cbn [fst] in *.
+    destruct (after_victim died _ k B Hv Hq) as (Et & Eo & K2 & Sl & D2 & D0 & _ & Hh).
+    set (s2 := vend died _) in *.
+    assert (A1 : holder s2 = Some d) by (apply Hh; apply Hb).
+    assert (A2 : held_by (objs s2 1) 1 d) by (rewrite Eo by discriminate; exact Hb).
+    assert (A3 : t_pc (thr s2 1) = PIdle) by (rewrite Et by discriminate; apply (b_idle _ B); discriminate).
+    assert (A4 : dead s2 (t_proc (thr s2 1)) = false) by (rewrite Et, (b_tp1 _ B) by discriminate; exact D2).
+    destruct (tail_busy fuel s2 d Hfu Sl K2 A1 A2 A3 A4) as (s4 & s6 & E4 & E6).
+    rewrite E4, E6. reflexivity.
+  - pose proof (Base_init reent dflt prog Hp) as B.
+    destruct (after_victim died _ k B Hv Hq) as (Et & Eo & K2 & Sl & D2 & D0 & Hn & _).
+    set (s2 := vend died _) in *.
+    destruct (init_objs reent dflt prog 1) as [P1 D1]; [discriminate|].
+    assert (A1 : idle_live s2 1 1).
+    { unfold idle_live. rewrite Et, Eo by discriminate. rewrite (b_idle _ B), (b_tp1 _ B), (b_op1 _ B) by discriminate. auto. }
+    assert (A2 : pristine (objs s2 1)) by (rewrite Eo by discriminate; exact P1).
+    assert (A3 : holder s2 = None) by (apply Hn; apply P1).
+    assert (A4 : forall T, snd (norm' (o_dflt (objs s2 1)) true TNone) <> TVal T).
+    { rewrite Eo, D1 by discriminate. intros T. cbn. discriminate. }
+    destruct (acq_ok s2 1 1 MPlain true TNone 51%N 0 fuel A1 K2 A2 A3 A4 Hfu) as (s3 & d & E3 & F3 & Hb3 & Pr3 & Pc3 & Tp3 & K3).
+    unfold acq_blk. rewrite E3.
+    assert (B1 : Slot s3 2 2).
+    { eapply Slot_others; [eapply others_Frame; eauto| | |exact Sl]; discriminate. }
+    assert (B2 : holder s3 = Some d) by apply (f_holder _ _ _ _ _ _ F3).
+    assert (B3 : dead s3 (t_proc (thr s3 1)) = false).
+    { rewrite Tp3, (f_dead _ _ _ _ _ _ F3), Et, (b_tp1 _ B) by discriminate. exact D2. }
+    destruct (tail_busy fuel s3 d Hfu B1 K3 B2 Hb3 Pc3 B3) as (s4 & s6 & E4 & E6).
+    cbn [result_eqb result_code Nat.eqb]. rewrite E4, E6. reflexivity.
+Qed.
+
+Lemma pop_viol s t p : viol (pop_prog s t p) = viol s.
+Proof. reflexivity. Qed.
+
+Lemma mt_gen_w_ok fuel reent dflt prog k died :
+  16 <= fuel -> (forall c, In c prog -> call_obj c = 0) ->
+  viol (victim_end_w fuel reent dflt prog k) = false -> vquiet died (victim_end_w fuel reent dflt prog k) ->
+  let '(wh, p1, p2) := mt_gen_w fuel reent dflt prog k died in ok_obs 2 wh p1 p2 = true.
+Proof.
+  intros Hfu Hp Hv Hq. unfold mt_gen_w. unfold victim_end_w in *.
+  pose proof (Base_init reent dflt prog Hp) as B0.
+  destruct (init_facts reent dflt prog) as (I0 & _).
+  set (s0 := init_crash reent dflt prog) in *.
+  pose proof (VF_go s0 k s0 (VF_refl s0 (b_uses _ B0))) as Va.
+  destruct (go_run k s0) as (ea & Ea).
+  destruct (go_f k s0) as [[sa la] rest]. cbn [fst] in Va, Ea.
+  (* the contract held up to the start of the waiter *)
+  assert (Hva : viol sa = false).
+  { destruct (run_k_run 0 rest (fst (do_call fuel sa 1 (acq_blk 1)))) as (e2 & E2). rewrite E2 in Hv.
+    apply viol_back in Hv. unfold do_call in Hv.
+    destruct (run_alone_run 1 fuel (pop_prog sa 1 [acq_blk 1])) as (e1 & E1). rewrite E1 in Hv.
+    apply viol_back in Hv. exact Hv. }
+  assert (Ia : Inv sa) by (rewrite Ea; apply Inv_run; auto; rewrite <- Ea; exact Hva).
+  pose proof (Base_VF s0 sa B0 Va Ia) as Ba.
+  destruct (init_objs reent dflt prog 1) as [P1 D1]; [discriminate|]. fold s0 in P1, D1.
+  assert (P1a : pristine (objs sa 1)) by (rewrite (v_obj _ _ Va) by discriminate; exact P1).
+  assert (D1a : o_dflt (objs sa 1) = TNeg) by (rewrite (v_obj _ _ Va) by discriminate; exact D1).
+  destruct (holder sa) as [h|] eqn:Eh.
+  - (* the victim holds: the waiter parks *)
+    destruct (waiter_blocks fuel sa h Hfu Ba Ia P1a D1a Eh) as (sb & a & d & E & W).
+    rewrite E in *. cbn [fst] in *.
+    destruct (waiter_resumes fuel died sb a d rest) as (s3 & E3 & Sl & K3 & Hh3 & Hb3 & Pc3 & Al3); auto; [lia|].
+    rewrite E3.
+    destruct (tail_busy fuel s3 d Hfu Sl K3 Hh3 Hb3 Pc3 Al3) as (s4 & s6 & E4 & E6).
+    cbn [result_eqb result_code Nat.eqb]. rewrite E4, E6. reflexivity.
+  - (* the path is free: the waiter holds from now on *)
+    destruct (survivor_acq fuel sa Hfu Ba Ia P1a D1a Eh) as (sb & d & E & Bb & Hb & Pg & Lr).
+    rewrite E in *. cbn [fst] in *.
+    destruct (after_victim died sb rest Bb Hv Hq) as (Et & Eo & K2 & Sl & D2 & D0 & _ & Hh).
+    set (s2 := vend died _) in *.
+    assert (A1 : holder s2 = Some d) by (apply Hh; apply Hb).
+    assert (A2 : held_by (objs s2 1) 1 d) by (rewrite Eo by discriminate; exact Hb).
+    assert (A3 : t_pc (thr s2 1) = PIdle) by (rewrite Et by discriminate; apply (b_idle _ Bb); discriminate).
+    assert (A4 : dead s2 (t_proc (thr s2 1)) = false) by (rewrite Et, (b_tp1 _ Bb) by discriminate; exact D2).
+    assert (Hdone : call_done s2 1 = true) by (unfold call_done; rewrite Et by discriminate; rewrite (b_idle _ Bb), Pg by discriminate; reflexivity).
+    rewrite run_alone_done by auto.
+    assert (Lr2 : last_result s2 1 = RTrue) by (unfold last_result in *; rewrite Et by discriminate; exact Lr).
+    rewrite Lr2.
+    destruct (tail_busy fuel s2 d Hfu Sl K2 A1 A2 A3 A4) as (s4 & s6 & E4 & E6).
+    cbn [result_eqb result_code Nat.eqb]. rewrite E4, E6. reflexivity.
+Qed.
+
+(* ---------- links to Case_C13.model_trace, the general theorems ---------------------------------------- *)
+
+Lemma model_trace_d reent dflt prog scen vops vres died a b c ops rs wh p1 p2 :
+  model_trace (CCrash reent dflt prog scen false vops vres died a b c) = (ops, rs, wh, p1, p2) ->
+  mt_gen_d FUEL reent dflt prog scen (length vops) died = (wh, p1, p2).
+Proof.
+  unfold model_trace, mt_gen_d, victim_end, vend.
+  set (s0' := if Nat.eqb scen 1 then _ else _).
+  destruct (run_k (length vops) s0' 0) as [sa la]. cbv beta iota zeta. cbn [fst].
+  destruct (Nat.eqb scen 2).
+  - destruct (do_call FUEL (if died then crash sa 1 else sa) 1 (acq_blk 1)) as [sw r]. cbv beta iota zeta. rewrite probe_eq.
+    destruct (probe_gen FUEL sw 2 2) as [s4 q1]. destruct (Nat.eqb scen 0); rewrite probe_eq;
+      match goal with |- context[probe_gen FUEL ?x 2 2] => destruct (probe_gen FUEL x 2 2) as [s6 q2] end;
+      intros [= _ _ <- <- <-]; reflexivity.
+  - cbv beta iota zeta. rewrite probe_eq.
+    destruct (probe_gen FUEL (if died then crash sa 1 else sa) 2 2) as [s4 q1]. destruct (Nat.eqb scen 0); rewrite probe_eq;
+      match goal with |- context[probe_gen FUEL ?x 2 2] => destruct (probe_gen FUEL x 2 2) as [s6 q2] end;
+      intros [= _ _ <- <- <-]; reflexivity.
+Qed.
+
+Lemma model_trace_w reent dflt prog vops vres died a b c ops rs wh p1 p2 :
+  model_trace (CCrash reent dflt prog 2 true vops vres died a b c) = (ops, rs, wh, p1, p2) ->
+  mt_gen_w FUEL reent dflt prog (length vops) died = (wh, p1, p2).
+Proof.
+  rewrite model_trace_w_unf. unfold mt_gen_w, victim_end_w, vend. cbv zeta.
+  destruct (go_f (length vops) (init_crash reent dflt prog)) as [[sa la] rest].
+  destruct (run_k rest (fst (do_call FUEL sa 1 (acq_blk 1))) 0) as [sc lc]. cbn [fst].
+  destruct (run_alone FUEL (if died then crash sc 1 else sc) 1) as [sw r].
+  rewrite probe_eq. destruct (probe_gen FUEL sw 2 2) as [s4 q1]. rewrite probe_eq.
+  destruct (probe_gen FUEL (fst (do_call FUEL s4 1 (CRel 1 false))) 2 2) as [s6 q2].
+  intros [= _ _ <- <- <-]. reflexivity.
+Qed.
+
+(* the state in which the victim ended, per kind of case *)
+Definition victim_end_all (fuel : nat) (reent : bool) (dflt : tmo) (prog : list call) (scen : nat) (wb : bool) (k : nat) : state :=
+  if wb then victim_end_w fuel reent dflt prog k else victim_end fuel reent dflt prog scen k.
+
+Theorem monitor_complete_all_C13_lemma :
+  forall reent dflt prog scen wb vops vres died a b c ops rs wh p1 p2,
+    scen <= 2 -> (wb = true -> scen = 2) -> (forall cl, In cl prog -> call_obj cl = 0) ->
+    viol (victim_end_all FUEL reent dflt prog scen wb (length vops)) = false ->
+    vquiet died (victim_end_all FUEL reent dflt prog scen wb (length vops)) ->
+    model_trace (CCrash reent dflt prog scen wb vops vres died a b c) = (ops, rs, wh, p1, p2) ->
+    ok (CCrash reent dflt prog scen wb vops vres died wh p1 p2) = true.
+Proof.
+  intros reent dflt prog scen wb vops vres died a b c ops rs wh p1 p2 Hs Hw Hp Hv Hq Hm.
+  destruct wb; unfold victim_end_all in *.
+  - rewrite (Hw eq_refl) in *.
+    pose proof (mt_gen_w_ok FUEL reent dflt prog (length vops) died FUEL_ge Hp Hv Hq) as H.
+    rewrite (model_trace_w _ _ _ _ _ _ _ _ _ _ _ _ _ _ Hm) in H. exact H.
+  - pose proof (mt_gen_d_ok FUEL reent dflt prog scen (length vops) died FUEL_ge Hs Hp Hv Hq) as H.
+    rewrite (model_trace_d _ _ _ _ _ _ _ _ _ _ _ _ _ _ _ Hm) in H. exact H.
+Qed.
+
+(* the contract in static form, also for the waiter-before cases *)
+Lemma W_run_full evs : forall s, Inv s -> W s -> viol s = false ->
+  viol (run s evs) = false /\ W (run s evs) /\ Inv (run s evs).
+Proof.
+  induction evs as [|e r IH]; [cbn; auto|]. intros s HI HW Hv.
+  change (run s (e :: r)) with (run (apply s e) r).
+  destruct (W_apply s e HI HW Hv) as [A B]. apply IH; auto. apply Inv_apply; auto.
+Qed.
+
+Lemma victim_viol_w fuel reent dflt prog k :
+  (forall c, In c prog -> call_obj c = 0) -> prog_okb (S (length prog)) [] prog = true ->
+  viol (victim_end_w fuel reent dflt prog k) = false.
+Proof.
+  intros Hp Hk. unfold victim_end_w. pose proof (init_cfg_ok reent dflt prog Hp Hk) as Hc.
+  pose proof (Base_init reent dflt prog Hp) as B0.
+  destruct (init_facts reent dflt prog) as (I0 & _ & _ & _ & _ & _ & _ & _ & T1 & _).
+  assert (W0 : W (init_crash reent dflt prog)) by (rewrite init_is_cfg; apply W_init; exact Hc).
+  set (s0 := init_crash reent dflt prog) in *.
+  pose proof (VF_go s0 k s0 (VF_refl s0 (b_uses _ B0))) as Va.
+  destruct (go_run k s0) as (ea & Ea).
+  destruct (go_f k s0) as [[sa la] rest]. cbn [fst] in Va, Ea.
+  destruct (W_run_full ea s0 I0 W0 eq_refl) as (Hva & Wa & Ia). rewrite <- Ea in *.
+  unfold do_call. set (sp := pop_prog sa 1 [acq_blk 1]).
+  destruct (run_alone_run 1 fuel sp) as (e1 & E1). rewrite E1.
+  destruct (run_k_run 0 rest (run sp e1)) as (e2 & E2). rewrite E2, <- run_app.
+  apply W_run; [apply Inv_pop; auto| |exact Hva].
+  apply W_pop_acq; auto.
+  - rewrite (v_thr _ _ Va) by discriminate. rewrite T1. reflexivity.
+  - rewrite (v_thr _ _ Va) by discriminate. rewrite T1. reflexivity.
+  - rewrite (v_thr _ _ Va), (v_obj _ _ Va) by discriminate. rewrite (b_op1 _ B0), (b_tp1 _ B0). reflexivity.
+Qed.
+
+Theorem monitor_complete_all_static_C13_lemma :
+  forall reent dflt prog scen wb vops vres died a b c ops rs wh p1 p2,
+    scen <= 2 -> (wb = true -> scen = 2) -> (forall cl, In cl prog -> call_obj cl = 0) ->
+    prog_okb (S (length prog)) [] prog = true ->
+    vquiet died (victim_end_all FUEL reent dflt prog scen wb (length vops)) ->
+    model_trace (CCrash reent dflt prog scen wb vops vres died a b c) = (ops, rs, wh, p1, p2) ->
+    ok (CCrash reent dflt prog scen wb vops vres died wh p1 p2) = true.
+Proof.
+  intros reent dflt prog scen wb vops vres died a b c ops rs wh p1 p2 Hs Hw Hp Hk Hq Hm.
+  eapply monitor_complete_all_C13_lemma; eauto.
+  unfold victim_end_all. destruct wb; [apply victim_viol_w|apply victim_viol]; auto.
 Qed.
